@@ -57,12 +57,13 @@ def build(case):
             break
         first = res[0]
         allhave = lambda f: all(f in r['fields'] for r in res)
+        idint = all(r.get('idtype', 'integer') == 'integer' for r in res)
         if t == 'add_field':
             nm = fresh('af')
             steps.append(DF.add_field(nm, ['string', 'integer', 'number', 'boolean'][a], ['x', 3, decimal.Decimal('1.5'), True][a]))
             for r in res:
                 r['fields'].append(nm)
-        elif t == 'add_computed' and allhave('id'):
+        elif t == 'add_computed' and allhave('id') and idint:
             nm = fresh('ac')
             op = ['sum', 'avg', 'constant', 'format'][a]
             spec = {'operation': op, 'target': nm, 'source': ['id', 'id'] if op in ('sum', 'avg') else [], 'with': 'c-{id}' if op == 'format' else 'k'}
@@ -83,6 +84,7 @@ def build(case):
             for r in res:
                 i1, i2 = r['fields'].index('id'), r['fields'].index('grp')
                 r['fields'][i1], r['fields'][i2] = 'grp', 'id'
+                r['idtype'] = 'string'
         elif t == 'rename' and a == 2 and allhave('id') and allhave('grp'):
             nm = fresh('rn')
             steps.append(DF.rename_fields({'id': 'grp', 'grp': nm}, regex=False))        # a chain
@@ -105,13 +107,13 @@ def build(case):
             res[-1]['fields'][res[-1]['fields'].index('txt')] = nm
         elif t == 'find_replace' and allhave('grp'):
             steps.append(DF.find_replace([{'name': 'grp', 'patterns': [{'find': 'g', 'replace': 'G'}]}]))
-        elif t == 'set_type' and allhave('id'):
+        elif t == 'set_type' and allhave('id') and idint:
             steps.append(DF.set_type('id', type=['integer', 'number', 'any', 'integer'][a], resources=None))
         elif t == 'validate':
             steps.append(DF.validate())
-        elif t == 'filter' and allhave('id'):
+        elif t == 'filter' and allhave('id') and idint:
             steps.append(DF.filter_rows(condition=lambda r: r['id'] % 2 == 0))
-        elif t == 'sort' and allhave('id'):
+        elif t == 'sort' and allhave('id') and idint:
             steps.append(DF.sort_rows('{id}', reverse=bool(a % 2)))
         elif t == 'dedup' and allhave('grp'):
             steps.append(DF.set_primary_key(['grp']))
@@ -133,14 +135,14 @@ def build(case):
                 res.append(c)
             else:
                 res.insert(1, c)
-        elif t == 'join' and len(res) >= 2 and 'grp' in res[0]['fields'] and 'grp' in res[1]['fields'] and 'id' in res[0]['fields']:
+        elif t == 'join' and idint and len(res) >= 2 and 'grp' in res[0]['fields'] and 'grp' in res[1]['fields'] and 'id' in res[0]['fields']:
             agg = ['sum', 'avg', 'count', 'counters'][a]
             nm = fresh('j')
             steps.append(DF.join(res[0]['name'], ['grp'], res[1]['name'], ['grp'], {nm: {'name': 'id', 'aggregate': agg}},
                                  mode=['inner', 'half-outer', 'full-outer', 'half-outer'][a], source_delete=True))
             res[1]['fields'].append(nm)
             res.pop(0)
-        elif t == 'join_self' and 'grp' in first['fields'] and 'id' in first['fields']:
+        elif t == 'join_self' and idint and 'grp' in first['fields'] and 'id' in first['fields']:
             steps.append(DF.join_with_self(first['name'], ['grp'], {'grp': None, 'n': {'aggregate': 'count'}, 'top': {'name': 'id', 'aggregate': 'max'}}))
             first['fields'] = ['grp', 'n', 'top']
         elif t == 'delete_res' and len(res) >= 2:
@@ -152,7 +154,7 @@ def build(case):
             steps.append(DF.update_schema(None, missingValues=['', 'NA']))
         elif t == 'update_package':
             steps.append(DF.update_package(title='pkg', name='pkg-name'))
-        elif t == 'row_fn' and allhave('id'):
+        elif t == 'row_fn' and allhave('id') and idint:
             steps.append(eval('lambda row: row.__setitem__("id", row["id"] + 1)'))
     return steps
 
